@@ -26,7 +26,8 @@ REQUIRED = {"subproblems": 20000, "postconditions": 20000,
             "tag:improving_direction_exists": 1000,
             "tag:normal_decreased": 1000}
 MIN_NONTRIVIAL = {"quick": 200, "thorough": 1000}
-PLAN = [("fuzz", 64, 1600), ("real", 300, 4000), ("repotests", 1, 1)]
+PLAN = [("fuzz", 64, 1600), ("real", 300, 4000), ("ulp_ties", 16, 200),
+        ("repotests", 1, 1)]
 PROP = "C16"
 
 
@@ -40,6 +41,8 @@ worker_init = subdrive.worker_init
 def run_case(case):
     if case["fam"] == "fuzz":
         return subdrive.fuzz_case(case, PROP)
+    if case["fam"] == "ulp_ties":
+        return subdrive.ulp_case(case, PROP)
     if case["fam"] == "repotests":
         from vlib import repotests
         viols, counts = repotests.run(PROP)
